@@ -11,7 +11,7 @@
    with the glob oracle [excl pattern file]; [lint_tree] continues with rules.InputFromPaths
    (cleaned names, parse oracle [parses]) and the sequential lint of Model/Sched.v. *)
 From Coq Require Import List Permutation.
-From Regal Require Import Model.Discover Proofs.Sched Proofs.InputPaths Proofs.Discover Gen.WalkConsts.
+From Regal Require Import Model.Discover Model.Router Proofs.Sched Proofs.InputPaths Proofs.Discover Proofs.Router Gen.WalkConsts.
 Import ListNotations.
 Local Open Scope nat_scope.
 
@@ -67,11 +67,40 @@ Theorem c02_summary_consistent :
 Proof. exact summary_consistent. Qed.
 Print Assumptions c02_summary_consistent.
 
-(* In a run over [names], whatever the order in which the per-file results were merged, the
+(* The router for bundled rules (Model/Router.v; bundle/regal/main/main.rego) asks every rule of
+   [rules f] for its [report] against the same input document, so a rule body can read
+   input.regal.operations: [body r f b] is the report of rule r for file f when "collect" is (b = true)
+   or is not (b = false) among the operations; [router_report] concatenates the bodies minus the
+   findings silenced by ignore directives, [router_res] is the result of the lint query.
+
+   In a run over [names], whatever the order in which the per-file results were merged, the
    per-file (non-aggregate) violations located in f are those of the run over f alone - provided
-   the report rules ignore the "collect" operation (H_ops) and report locations in their own
-   file (H_loc); both hypotheses are what the batch-vs-single comparison of the harness tests. *)
+     H_ops: for EVERY rule the router runs, the findings for a file are the same multiset with and
+            without the "collect" operation, and
+     H_loc: every rule reports locations in the file it was given.
+   Both hypotheses are tested, not proved: H_ops rule by rule, with the lint query evaluated twice
+   on every file of the composition workspaces (Check/C02Check.v [hops_row]; the rules that define
+   both [report] and [aggregate] are listed in the evidence of the run and each must have been
+   triggered), and end to end by the batch-vs-single comparison of real Linter.Lint runs. *)
 Theorem c02_single_file_compose :
+  forall (rules : str -> list str) (body : str -> str -> bool -> list viol)
+         (ignored : str -> viol -> bool) (rest : str -> bool -> result)
+         (aggreport : amap -> dmap -> list viol),
+  (forall f r, In r (rules f) -> Permutation (body r f true) (body r f false)) ->
+  (forall f r b v, In r (rules f) -> In v (body r f b) -> v_file v = f) ->
+  let res := router_res rules body ignored rest in
+  forall (names : list str) (f : str) (merged : list result),
+  NoDup names -> In f names ->
+  Permutation merged (map (fun g => res g (collect_flag false (length names))) names) ->
+  Permutation
+    (filter (of_file f) (f_viol (finalize aggreport None [] (length names) (fold_left merge merged empty_report))))
+    (f_viol (lint_names res aggreport [f])).
+Proof. exact router_single_file_compose. Qed.
+Print Assumptions c02_single_file_compose.
+
+(* the same for an arbitrary rule oracle (no router): the lint query of a file yields the same
+   per-file violations with and without "collect", located in the file *)
+Theorem c02_single_file_compose_abstract :
   forall (res : str -> bool -> result) (aggreport : amap -> dmap -> list viol),
   (forall f b, r_viol (res f b) = r_viol (res f false)) ->
   (forall f b v, In v (r_viol (res f b)) -> v_file v = f) ->
@@ -82,7 +111,21 @@ Theorem c02_single_file_compose :
     (filter (of_file f) (f_viol (finalize aggreport None [] (length names) (fold_left merge merged empty_report))))
     (f_viol (lint_names res aggreport [f])).
 Proof. exact single_file_compose. Qed.
-Print Assumptions c02_single_file_compose.
+Print Assumptions c02_single_file_compose_abstract.
+
+(* H_ops cannot be dropped: with a router that does not ask rules that also define [aggregate]
+   for their report while collecting ([skip_when_collecting]), H_loc still holds, H_ops fails for
+   that rule, and the finding of file "a" in the run over "a","b" is not the one of "a" alone. *)
+Theorem c02_compose_needs_ops_independence :
+  let res := router_res (fun _ => [ex_rule]) ex_skip_body (fun _ _ => false) ex_rest in
+  (forall f r b v, In r [ex_rule] -> In v (ex_skip_body r f b) -> v_file v = f) /\
+  ~ Permutation (ex_skip_body ex_rule ex_f1 true) (ex_skip_body ex_rule ex_f1 false) /\
+  NoDup [ex_f1; ex_f2] /\
+  ~ Permutation
+      (filter (of_file ex_f1) (f_viol (lint_names res (fun _ _ => []) [ex_f1; ex_f2])))
+      (f_viol (lint_names res (fun _ _ => []) [ex_f1])).
+Proof. exact compose_needs_ops_independence. Qed.
+Print Assumptions c02_compose_needs_ops_independence.
 
 (* The constants and guards of the walk in the tree of THIS run are the documented ones:
    adding a skipped directory name or changing the suffix breaks this on the next run. *)
@@ -111,7 +154,14 @@ Example c02_lint_tree_nonvacuous :
     f_scanned fin = 2 /\ f_num fin = 3 /\ f_failed fin = 3.
 Proof. exact lint_tree_example. Qed.
 
-(* H_ops and H_loc are satisfiable *)
+(* H_ops and H_loc of c02_single_file_compose are satisfiable by a router that reports something *)
+Example c02_router_hypotheses_satisfiable :
+  (forall f r, In r [ex_rule] -> Permutation (ex_body r f true) (ex_body r f false)) /\
+  (forall f r b v, In r [ex_rule] -> In v (ex_body r f b) -> v_file v = f) /\
+  router_report (fun _ => [ex_rule]) ex_body (fun _ _ => false) ex_f1 true = [{| v_file := ex_f1; v_key := ex_rule |}].
+Proof. exact router_hypotheses_satisfiable. Qed.
+
+(* H_ops and H_loc of the abstract form are satisfiable *)
 Example c02_compose_hypotheses_satisfiable :
   (forall f b, r_viol (ex_res f b) = r_viol (ex_res f false)) /\
   (forall f b v, In v (r_viol (ex_res f b)) -> v_file v = f).
